@@ -1,5 +1,5 @@
 """Per-property wording for MANIFEST.json (kept next to the registry)."""
-HOOK_COMMITS = []
+HOOK_COMMITS = ["bfa4000 (H0 friend probe)", "7764012 (H1 ParallelSieve piece hook / minimum piece length override)"]
 NOTES = ("Technique family: machine-checked proof in Lean 4 (see DESIGN.md). Every check = build /repo with "
          "hooks+asserts+sanitizers, regenerate lean/PsModel/Generated from /repo, lake build + axiom audit + "
          "statement lock of the property theorems, then correspondence streams (harness vs compiled Lean model).")
@@ -63,6 +63,50 @@ TEXT["C10"] = {
             "Partial: the no-wrap lemmas for the cross-off index arithmetic belong to the sieve chain (not yet proved).",
     "design_ref": "DESIGN.md section 8 C10", "note": _IGEN,
     "technique": "Lean 4 proof (Lucas primality certificate, saturation lemmas, iterator refinement) + correspondence"}
+
+
+TEXT["C04"] = {
+    "text": "Proof (Lean 4): for every start, stop, flag set containing COUNT_PRIMES, thread count and minimum piece "
+            "length, counter 0 of the model of PrimeSieve::sieve / ParallelSieve::sieve (small-prime table rows + popcount "
+            "of every byte of an ideal segmented sieve + per-piece addition) equals the number of primes in [start, stop] "
+            "(0 when start > stop); additivity and agreement with the enumeration are corollaries. The byte decoding "
+            "(bitValues, popcount) is checked for all 256 byte values by the kernel (decide +kernel, no axioms). Tied to "
+            "src/PrimeSieve.cpp, CountPrintPrimes.cpp, ParallelSieve.cpp, Erat*.cpp by the count stream (all six counters, "
+            "thread count, piece list vs model, every result vs an independent oracle) and the segment stream (every bit "
+            "of every sieved segment vs oracle, segment geometry vs model).",
+    "design_ref": "DESIGN.md section 8 C04", "note": _COUNT,
+    "technique": "Lean 4 proof (byte-level decoding lemmas + tiling) over an ideal sieve + model/implementation correspondence"}
+TEXT["C05"] = {
+    "text": "Proof (Lean 4): for i = 1..5 counter i of the model equals the number of constellations of kind i all of whose "
+            "members lie in [start, stop] (single-threaded and per-piece-added), including the five small ones from the "
+            "table and excluding constellations cut by start or stop. The per-byte bit masks are proved to decode to "
+            "exactly the constellations of their kind for ALL 256 byte values (kernel-checked), the residue argument shows "
+            "every constellation >= 7 lies inside one sieve byte. Tied to the code by the count stream with dense piece "
+            "boundaries (hook H1) and intervals cutting constellations.",
+    "design_ref": "DESIGN.md section 8 C05", "note": _COUNT,
+    "technique": "Lean 4 proof (exhaustive mask/pattern correspondence + residue window + tiling) + correspondence"}
+TEXT["C15"] = {
+    "text": "Proof (Lean 4): the lines the model of PrimeSieve::sieve(PRINT_PRIMES) writes are exactly the decimal "
+            "renderings of the primes of [start, stop] in ascending order for every start, stop; for PRINT_TWINS.."
+            "PRINT_SEXTUPLETS and start >= 7 exactly '(a, b, ...)' for the constellations of that kind, ordered by first "
+            "member; the number of lines equals the corresponding count; the small-table strings are the renderings of "
+            "their members. Tied to CountPrintPrimes::printPrimes/printkTuplets and the C/C++ print functions by the "
+            "print stream (captured stdout compared byte for byte with an oracle rendering and by digest with the model, "
+            "including segments with several 64 KiB print batches). Partial: k-tuplet printing for start < 7 is covered "
+            "by the table-string theorem and the stream, not by a full theorem.",
+    "design_ref": "DESIGN.md section 8 C15", "note": _COUNT + " iostream decimal formatting is trusted equal to Nat.repr.",
+    "technique": "Lean 4 proof (list-level decoding of the ideal sieve) + stdout correspondence stream"}
+TEXT["C06"] = {
+    "text": "Proof (Lean 4): store_primes over the iterator model appends nothing for empty requests, throws before "
+            "storing anything when stop exceeds the element type's maximum, and otherwise appends exactly the primes of "
+            "[start, stop] ascending (so never a truncated value), for every start, stop, element type, block-length "
+            "policy and float oracle; the block loop provably terminates (explicit fuel bound); every "
+            "generate_next_primes block is a non-empty run of consecutive primes continuing the previous block. Tied to "
+            "StorePrimes.hpp / api-c.cpp by the store stream: all 8 C++ element types and all 14 C type codes at their own "
+            "limits, prefilled vectors, n on block edges, top of the range. Partial: store_n_primes is modelled and tied "
+            "by the stream, its theorem is not proved.",
+    "design_ref": "DESIGN.md section 8 C06", "note": _IGEN,
+    "technique": "Lean 4 proof (loop invariant over the iterator refinement) + model/implementation correspondence"}
 
 NOT_APPLICABLE = [
     {"property_id": "C18",
